@@ -90,10 +90,11 @@ EXTRA_SEEDS = [
     ('A', 'Mul', 'impl MulAssign<dyn A + > for X { fn mul_assign(&mut self, r: X) { } }'),
     ('A', 'Add', 'impl Add<dyn A + > for X { type Output = X; fn add(self, r: X) -> X { self } }'),
     ('A', 'BitOr, BitOrAssign', 'impl BitOr<impl A + B> for X { type Output = X; fn bitor(self, r: X) -> X { self } }'),
-    # the two recorded findings (known_findings.json) in their impl-level spellings: a trait object WITHOUT `dyn` written with a
-    # trailing `+`; `Self` standing for a bare trait object with several bounds, after `&`
+    # the recorded finding (known_findings.json) in its impl-level spelling: a trait object WITHOUT `dyn` written with a trailing
+    # `+`; and `Self` standing for a bare trait object with several bounds, after `&` / `*const` (parenthesised since the last fix of round 13)
     ('A', 'Add', 'impl Add<A +> for X { type Output = X; fn add(self, r: X) -> X { self } }'),
     ('A', 'BitXor', 'impl BitXorAssign<&Self> for dyn A + Send { fn bitxor_assign(&mut self, rhs: &Self) { } }'),
+    ('A', 'Add, AddAssign', 'impl<T: Tr<*const Self>> Add<Vec<&Self>> for dyn A + Send + Sync where &\'static Self: Copy { type Output = *mut Self; fn add(self, r: Vec<&Self>) -> *mut Self { todo!() } }'),
     ('A', 'Add', 'impl Add<> for X { type Output = X; fn add(self, r: X) -> X { self } }'),
     ('A', 'AddAssign', 'impl AddAssign<> for X { fn add_assign(&mut self, r: X) {} }'),
     ('A', 'Add', 'impl ::core::ops::Add<X,> for X { type Output = X; fn add(self, r: X) -> X { self } }'),
